@@ -2,6 +2,8 @@ import Resolvo.Drv.Util
 import Resolvo.Drv.Mapping
 import Resolvo.Drv.Amo
 import Resolvo.Drv.Solve
+import Resolvo.Drv.Cache
+import Resolvo.Drv.Pool
 open Resolvo.Drv
 
 def runCase (c : Case) : List String :=
@@ -9,6 +11,8 @@ def runCase (c : Case) : List String :=
   | "mapping" => runMapping c.lines
   | "amo" => runAmo c.lines
   | "solve" => runSolve c.lines
+  | "cache" => runCache c.lines
+  | "pool" => runPool c.lines
   | "soft" => runSolve c.lines
   | "conflictfree" => runSolve c.lines
   | f => [s!"unknown-family {f}"]
